@@ -75,7 +75,7 @@ class Recipe(object):
     def __init__(self, name, nsrc, variants, group, stream=None, build=(),
                  hdr_ctor=False, items=False, multi=False, temp=False,
                  c01=True, profile=None, stack=True, rect=False,
-                 fails=False):
+                 fails=False, ends_after=None):
         self.name = name
         self.nsrc = nsrc
         self.variants = variants
@@ -91,6 +91,9 @@ class Recipe(object):
         self.stackable = stack and nsrc == 1 and not multi and not items
         self.rect = rect
         self.fails = fails      # never completes a pass (a bad argument)
+        # variant index -> number of source rows after which the view ends,
+        # whatever is asked of it (head(n), rowslice with a stop)
+        self.ends_after = dict(ends_after or {})
 
 
 RECIPES = {}
@@ -463,9 +466,10 @@ R('addfields', 1,
 R('rowslice', 1, [lambda e, w: e.rowslice(w.s[0], 2),
                   lambda e, w: e.rowslice(w.s[0], 1, 4),
                   lambda e, w: e.rowslice(w.s[0], 0, 6, 2)],
-  'transform.basics', stream=FIL0)
+  'transform.basics', stream=FIL0, ends_after={0: 2, 1: 4, 2: 6, 3: 0})
 R('head', 1, [lambda e, w: e.head(w.s[0], 3),
               lambda e, w: e.head(w.s[0], 0)], 'transform.basics',
+  ends_after={0: 3, 1: 0, 2: 1, 3: 100},
   stream=FIL0)
 R('tail', 1, [lambda e, w: e.tail(w.s[0], 2)], 'transform.basics')
 R('skipcomments', 1, [lambda e, w: e.skipcomments(w.s[0], 'x')],
